@@ -47,6 +47,9 @@ pub struct Program {
     pub clients: Vec<Vec<Cmd>>,
     pub policy: Policy,
     pub shards: usize,
+    /// part of the identity of a finding when the same commands are run in a special setting
+    /// (e.g. under memory pressure); empty for the ordinary families
+    pub tag: &'static str,
 }
 
 impl Program {
